@@ -19,6 +19,7 @@ from harness import core, coqio
 from harness import settheory as st
 from pyasn1 import error
 from pyasn1.type import univ, char, tag, namedtype, base, constraint as C
+from pyasn1.type import error as type_error
 from pyasn1.codec.ber import encoder as ber_enc, decoder as ber_dec
 from pyasn1.codec.cer import encoder as cer_enc
 from pyasn1.codec.der import encoder as der_enc
@@ -33,13 +34,17 @@ BASES = {
     'bits': (univ.BitString, (0, 3)),
 }
 TAGCLS = {64: 'Appl', 128: 'Ctx', 192: 'Priv', 0: 'Univ'}
+FIELDS_ALL = ['a', 'b', 'c']
 
 
 # ------------------------------------------------------------------------------------------
 # helpers
 
+VCE = (error.ValueConstraintError, type_error.ValueConstraintError)   # two classes of that name exist
+
+
 def exc_class(e):
-    if isinstance(e, error.ValueConstraintError):
+    if isinstance(e, VCE):
         return 'EConstraint'
     if isinstance(e, error.PyAsn1Error):
         return 'EMalformed'
@@ -130,7 +135,7 @@ def part_a(ctx, exprs, meta):
         (('inner', [((('int', 0), ('text', 'PRESENT')), ('single', [('int', 4)])),
                     ((('int', 1), ('text', 'ABSENT')), ('single', [('int', 5)]))]), 'int'),
     ]
-    n = ctx.n(260, 6000)
+    n = ctx.n(260, 2600)
     trees = list(fixed)
     for i in range(n):
         kind = kinds[i % len(kinds)] if i % 7 else rng.choice(kinds)
@@ -240,7 +245,7 @@ def part_b(ctx, exprs, meta):
              ('bytes', [], [(None, ('size', 1, 4)), (('explicit', 64, 7), ('size', 2, 3))]),
              ('text', [('size', 0, 5)], [(None, ('alpha', [('text', 'a'), ('text', 'b')])), (None, ('size', 1, 2))])]
     chains = list(fixed)
-    for i in range(ctx.n(70, 1500)):
+    for i in range(ctx.n(70, 600)):
         kind = ['int', 'bytes', 'text', 'oid', 'bits'][i % 5]
         chains.append((kind,) + gen_chain(rng, kind))
     for kind, ops0, steps in chains:
@@ -386,15 +391,18 @@ def part_c(ctx, exprs, meta):
             exprs.append('(is_unmodelled %s || outcome_eqb %s %s)' % (model, model, rc))
         meta.append(('model and implementation disagree on %s' % what, case, None))
 
-    n_types = ctx.n(36, 700)
+    n_types = ctx.n(36, 280)
     for t in range(n_types):
         kind = ['int', 'int', 'bytes', 'text', 'oid', 'bits'][t % 6]
-        ops = [st.gen_tree(rng, kind, rng.randrange(1, 4)) for _ in range(rng.choice([1, 1, 2]))]
-        tree = ('and', ops)
+        for attempt in range(12):       # prefer types that admit at least one of their boundary candidates
+            ops = [st.gen_tree(rng, kind, rng.randrange(1, 4)) for _ in range(rng.choice([1, 1, 2]))]
+            tree = ('and', ops)
+            cands = st.candidates(rng, tree, kind, 14)
+            values = [x for x in cands if st.member(tree, None, x)][:4]
+            if values:
+                break
         T = new_type(kind, ops)
         Tc = stype_coq(kind, ops)
-        cands = st.candidates(rng, tree, kind, 14)
-        values = [x for x in cands if st.member(tree, None, x)][:4]
         ctx.stats['c.types.' + kind] += 1
         if not values:
             ctx.stats['c.types_without_member_candidate'] += 1
@@ -596,7 +604,7 @@ def part_c(ctx, exprs, meta):
         ctx.stats['c.real_probes'] += 1
         res, exc = run_op(lambda: univ.Real(val, subtypeSpec=C.ConstraintsIntersection(spec())))
         case = {'part': 'c', 'op': 'real', 'constraint': tree, 'value': val, 'impl': 'ok' if exc is None else type(exc).__name__}
-        got = 'ok' if exc is None else ('EConstraint' if isinstance(exc, error.ValueConstraintError) else 'crash')
+        got = 'ok' if exc is None else ('EConstraint' if isinstance(exc, VCE) else 'crash')
         if got != ('ok' if member else 'EConstraint'):
             # class predicate of F14b: the type is REAL and the expression holds a value range or a
             # single value written as a number
@@ -611,7 +619,7 @@ def part_c(ctx, exprs, meta):
 def part_d(ctx, exprs, meta):
     rng = ctx.rng
     encs = [('ber', ber_enc), ('cer', cer_enc), ('der', der_enc)]
-    for t in range(ctx.n(30, 500)):
+    for t in range(ctx.n(30, 250)):
         # SEQUENCE OF / SET OF under size-only expressions
         tree = st.gen_tree(rng, 'bits', rng.randrange(1, 4))     # 'bits' trees are built from sizes only
         ptree = st.to_pyasn1(tree)
@@ -652,7 +660,7 @@ def part_d(ctx, exprs, meta):
                               dict(case, substrate=sub.hex()), finding='F13')
             elif exc is not None and (want or not isinstance(exc, error.PyAsn1Error)):
                 ctx.prop_fail('decoder raised %s on a consistent value' % type(exc).__name__, dict(case, substrate=sub.hex()))
-    for t in range(ctx.n(30, 500)):
+    for t in range(ctx.n(30, 250)):
         # SEQUENCE / SET under WITH COMPONENTS expressions
         tree = st.gen_tree(rng, 'map', rng.randrange(2, 5))
         if 'with' not in st.classes(tree):
@@ -682,6 +690,15 @@ def part_d(ctx, exprs, meta):
             ctx.stats['d.seq.' + ('consistent' if want else 'inconsistent')] += 1
             if any(o != ('ok' if want else 'refused') for o in outs):
                 ctx.prop_fail('encoders %r a %s value (set theory: member=%s)' % (outs, cls.__name__, want), case)
+            # reading the value (which instantiates schema objects for the absent OPTIONAL components)
+            # must not change what the encoders think of it
+            for k in FIELDS_ALL:
+                v.getComponentByName(k)
+            res, exc = run_op(ber_enc.encode, v)
+            again = 'ok' if exc is None else ('refused' if isinstance(exc, error.PyAsn1Error) else 'crash:' + type(exc).__name__)
+            if again != ('ok' if want else 'refused'):
+                ctx.prop_fail('after its components have been read, the BER encoder says %r to a %s value '
+                              '(set theory: member=%s)' % (again, cls.__name__, want), dict(case, after_read=again))
             exprs.append('verdict_eqb (ceval (CAnd [%s]) None %s) %s' % (st.to_coq(tree), st.cval_coq(x),
                                                                           'Pass' if outs[0] == 'ok' else 'Fail'))
             meta.append(('model and encoder disagree on a WITH COMPONENTS constraint', case, None))
